@@ -167,6 +167,226 @@ def _adddialer_fail_detaches(fl):
     return []
 
 
+# ---- nbhttp engine (Model/HttpStop.lean)
+
+# closeAllConns: the whole sweep is one critical section of engine.mux (model: `sweep` is atomic w.r.t. insert/delete)
+def _closeall(fl):
+    cl = [f for f in fl if f["kind"] == "call" and f["expr"] == "c.Close"]
+    acc = [f for f in fl if f["kind"] == "access" and f["expr"] in ("recv.conns", "recv.dialerConns")]
+    problems = []
+    if not cl or not acc:
+        problems.append("closeAllConns: Close calls / map accesses not found")
+    for f in cl + acc:
+        if "recv.mux" not in f["held"]:
+            problems.append("closeAllConns: %s at line %d without engine.mux" % (f["expr"], f["line"]))
+    return problems
+
+
+# nbhttp Stop: shutdown flag < stopListeners < closeAllConns < core Engine.Stop (model: stopFlag, stopListeners, sweep, coreBegin)
+def _http_stop_order(fl):
+    w = _lines(fl, "access", "recv.shutdown", write=True)
+    s, c, e = _lines(fl, "call", "recv.stopListeners"), _lines(fl, "call", "recv.closeAllConns"), _lines(fl, "call", "recv.Engine.Stop")
+    if not (w and s and c and e):
+        return ["nbhttp Stop: shutdown write / stopListeners / closeAllConns / Engine.Stop not all found"]
+    if not (w[0] < s[0] < c[0] < e[0]):
+        return ["nbhttp Stop: expected shutdown = true < stopListeners < closeAllConns < Engine.Stop, found lines %s %s %s %s" % (w, s, c, e)]
+    return []
+
+
+# nbhttp Shutdown: flag < stopListeners < loop{closeAllConns; test of the map} < core Engine.Shutdown, nothing under a lock
+def _http_shutdown_order(fl):
+    w = _lines(fl, "access", "recv.shutdown", write=True)
+    s, c, e = _lines(fl, "call", "recv.stopListeners"), _lines(fl, "call", "recv.closeAllConns"), _lines(fl, "call", "recv.Engine.Shutdown")
+    m = _lines(fl, "access", "recv.conns")
+    if not (w and s and len(c) >= 2 and e and m):
+        return ["nbhttp Shutdown: shutdown write / stopListeners / two closeAllConns (deferred + loop) / map test / Engine.Shutdown not all found"]
+    if not (w[0] < s[0] < c[-1] < m[0] < e[0]):
+        return ["nbhttp Shutdown: expected flag < stopListeners < closeAllConns (loop) < len(conns) test < Engine.Shutdown, found %s %s %s %s %s" % (w, s, c, m, e)]
+    return []
+
+
+# the add paths: insert under engine.mux < _onOpen (unlocked) < AddConn (unlocked) < delete under engine.mux on failure
+def _addconn_nb(fl):
+    ins = [f for f in fl if f["kind"] == "access" and f["expr"] == "recv.conns" and f.get("write")]
+    dele = [f for f in fl if f["kind"] == "call" and f["expr"] == "delete"]
+    op, add = _lines(fl, "call", "recv._onOpen"), _lines(fl, "call", "recv.AddConn")
+    problems = []
+    if not (ins and dele and op and add):
+        return ["non-blocking add path: insert / _onOpen / AddConn / delete not all found"]
+    for f in ins + dele:
+        if "recv.mux" not in f["held"]:
+            problems.append("add path: engine.conns changed at line %d without engine.mux" % f["line"])
+    for f in fl:
+        if f["kind"] == "call" and f["expr"] in ("recv._onOpen", "recv.AddConn") and f["held"]:
+            problems.append("add path: %s called with %s held" % (f["expr"], f["held"]))
+    if not (ins[0]["line"] < op[0] < add[0] < dele[0]["line"]):
+        problems.append("add path: expected insert < _onOpen < AddConn < delete-on-failure")
+    return problems
+
+
+def _addconn_transferred(fl):
+    ins = [f for f in fl if f["kind"] == "access" and f["expr"] == "recv.conns" and f.get("write")]
+    dele = [f for f in fl if f["kind"] == "call" and f["expr"] == "delete"]
+    op, add = _lines(fl, "call", "recv._onOpen"), _lines(fl, "call", "recv.AddConn")
+    if not (ins and dele and op and add):
+        return ["AddTransferredConn: insert / AddConn / delete / _onOpen not all found"]
+    problems = ["AddTransferredConn: engine.conns changed at line %d without engine.mux" % f["line"] for f in ins + dele if "recv.mux" not in f["held"]]
+    if not (ins[0]["line"] < add[0] < dele[0]["line"] < op[0]):
+        problems.append("AddTransferredConn: expected insert < AddConn < delete-on-failure < _onOpen")
+    return problems
+
+
+def _addconn_blk(fl):
+    ins = [f for f in fl if f["kind"] == "access" and f["expr"] == "recv.conns" and f.get("write")]
+    op = _lines(fl, "call", "recv._onOpen")
+    go = [f for f in fl if f["kind"] == "go"]
+    if not (ins and op and len(go) == 1):
+        return ["blocking add path: insert / _onOpen / exactly one go statement not found"]
+    problems = ["blocking add path: engine.conns changed at line %d without engine.mux" % f["line"] for f in ins if "recv.mux" not in f["held"]]
+    if not (ins[0]["line"] < op[0] < go[0]["line"]):
+        problems.append("blocking add path: expected insert < _onOpen < go readConnBlocking")
+    return problems
+
+
+# the reader goroutine's deferred exit: delete under engine.mux, then _onClose, on every return (one deferred closure,
+# no return path around it: the defer is registered before the read loop) — `transferred ⇒ deleted`
+def _reader_exit(fl):
+    dele = [f for f in fl if f["kind"] == "call" and f["expr"] == "delete" and f["closure"] >= 1]
+    oc = [f for f in fl if f["kind"] == "call" and f["expr"] == "recv._onClose" and f["closure"] >= 1]
+    rd = [f for f in fl if f["kind"] == "call" and f["expr"] in ("conn.Read", "rconn.Read") and f["closure"] == 0]
+    if not (dele and oc and rd):
+        return ["reader goroutine: deferred delete / _onClose or the Read call not found"]
+    problems = []
+    if "recv.mux" not in dele[0]["held"]:
+        problems.append("reader goroutine: delete(engine.conns) without engine.mux")
+    if oc[0]["held"]:
+        problems.append("reader goroutine: _onClose called with %s held" % oc[0]["held"])
+    if not (dele[0]["line"] < oc[0]["line"] < rd[0]["line"]):
+        problems.append("reader goroutine: the deferred exit (delete < _onClose) must be registered before the read loop")
+    if dele[0]["closure"] != oc[0]["closure"]:
+        problems.append("reader goroutine: delete and _onClose are not in the same deferred function")
+    return problems
+
+
+def reader_exit_delete_unconditional(sc):
+    """the delete in the deferred exit of readConnBlocking / readTLSConnBlocking is not under `if !conn.Trasfered`"""
+    src = _source(sc, "nbhttp/engine.go")
+    problems = []
+    for fn in ("readConnBlocking", "readTLSConnBlocking"):
+        m = re.search(r"func \(engine \*Engine\) %s\(.*?\n}\n" % fn, src, re.S)
+        body = m.group(0) if m else ""
+        d = re.search(r"defer func\(\) \{(.*?)\n\t\}\(\)", body, re.S)
+        if not d:
+            problems.append("%s: deferred exit not found" % fn)
+            continue
+        blk = d.group(1)
+        guard = re.search(r"if !conn\.Trasfered \{(.*?)\n\t\t\}", blk, re.S)
+        if guard and "delete(engine.conns" in guard.group(1):
+            problems.append("%s: delete(engine.conns, key) is inside `if !conn.Trasfered`" % fn)
+        if "delete(engine.conns" not in blk:
+            problems.append("%s: the deferred exit does not delete the key" % fn)
+    return (not problems), "; ".join(problems)
+
+
+# the close job of a non-blocking conn: submitted through the conn's executor; _onClose and the delete inside the job
+def _close_job(fl):
+    me = [f for f in fl if f["kind"] == "call" and f["expr"] == "c.MustExecute"]
+    dele = [f for f in fl if f["kind"] == "call" and f["expr"] == "delete" and "engine.mux" in " ".join(f["held"])]
+    oc = [f for f in fl if f["kind"] == "call" and f["expr"] == "engine._onClose"]
+    if not (me and dele and oc):
+        return ["NewEngine: close job (MustExecute / _onClose / delete under engine.mux) not found"]
+    if not (dele[0]["closure"] > me[0]["closure"] and oc[0]["closure"] == dele[0]["closure"]):
+        return ["NewEngine: _onClose and the delete are not inside the job given to MustExecute"]
+    return []
+
+
+# the listen loop: a conn accepted while shutting down is closed (model: `accept` with `closeLate`)
+def listen_closes_late_conn(sc):
+    src = _source(sc, "nbhttp/engine.go")
+    m = re.search(r"func \(e \*Engine\) listen\(.*?\n}\n", src, re.S)
+    body = m.group(0) if m else ""
+    ok = re.search(r"if err == nil && !e\.shutdown \{\s*addConn\(.*?\)\s*\} else if err == nil \{[^}]*conn\.Close\(\)", body, re.S)
+    return bool(ok), "" if ok else "listen: a conn returned by Accept with e.shutdown set is not closed"
+
+
+# poller.addConn: the closed test and `c.p = p` are one critical section of the conn's mutex, before the open callback
+def _addconn_closed_test(fl):
+    t = [f for f in fl if f["kind"] == "access" and f["expr"] == "c.closed"]
+    pw = [f for f in fl if f["kind"] == "access" and f["expr"] == "c.p" and f.get("write")]
+    op = _lines(fl, "call", "recv.g.onOpen")
+    if not (t and pw and op):
+        return ["poller.addConn: c.closed test / c.p write / onOpen not all found"]
+    problems = []
+    if "c.mux" not in t[0]["held"] or "c.mux" not in pw[0]["held"]:
+        problems.append("poller.addConn: the closed test and c.p = p are not both under c.mux")
+    if not (t[0]["line"] < pw[0]["line"] < op[0]):
+        problems.append("poller.addConn: expected closed test < c.p = p < onOpen")
+    for f in fl:
+        if f["kind"] == "call" and f["expr"] == "recv.g.onOpen" and "c.mux" in f["held"]:
+            problems.append("poller.addConn: onOpen called with c.mux held")
+    return problems
+
+
+# ---- lmux (Model/Lmux.lean)
+
+# Stop: close the listeners < wg.Wait < close(chClose) < closeQueued (model: `stop`, then `stopFinish` once muxAlive = false)
+def lmux_stop_order(sc):
+    src = _source(sc, "lmux/lmux.go")
+    m = re.search(r"func \(lm \*ListenerMux\) Stop\(\) \{.*?\n}\n", src, re.S)
+    body = m.group(0) if m else ""
+    idx = [body.find(x) for x in ("lm.shutdown = true", "l.Close()", "lm.wg.Wait()", "close(lm.chClose)", "closeQueued()")]
+    if min(idx) < 0:
+        return False, "lmux Stop: shutdown flag / listener Close / wg.Wait / close(chClose) / closeQueued not all found"
+    if idx != sorted(idx):
+        return False, "lmux Stop: expected shutdown = true < l.Close < wg.Wait < close(chClose) < closeQueued"
+    return True, ""
+
+
+# the accept goroutine: wg.Add before `go`, deferred Done inside; one channel send per accepted conn (A or B), the
+# error event to both; the counter test and the sends are not under any lock (model: `route` = add-test-send)
+def _lmux_start(fl):
+    add = [f for f in fl if f["kind"] == "call" and f["expr"] == "recv.wg.Add"]
+    done = [f for f in fl if f["kind"] == "call" and f["expr"] == "recv.wg.Done"]
+    go = [f for f in fl if f["kind"] == "go"]
+    if not (add and done and len(go) == 1):
+        return ["lmux Start: wg.Add / wg.Done / exactly one go statement not found"]
+    problems = []
+    if not add[0]["line"] < go[0]["line"]:
+        problems.append("lmux Start: wg.Add is not before the go statement")
+    if done[0]["closure"] <= add[0]["closure"]:
+        problems.append("lmux Start: wg.Done is not inside the goroutine")
+    return problems
+
+
+def lmux_closequeued_closes_and_decreases(sc):
+    src = _source(sc, "lmux/lmux.go")
+    m = re.search(r"func \(l \*ChanListener\) closeQueued\(\) \{.*?\n}\n", src, re.S)
+    body = m.group(0) if m else ""
+    ok = "<-l.chEvent" in body and "e.conn.Close()" in body and "l.Decrease()" in body and "default:" in body
+    return ok, "" if ok else "lmux closeQueued: does not drain chEvent non-blockingly closing each conn and giving back its online count"
+
+
+C18_HTTP_CS = [
+    _custom("http_closeallconns_one_section", "nbhttp/engine.go", "nbhttp.Engine.closeAllConns", _closeall),
+    _custom("http_stop_statement_order", "nbhttp/engine.go", "nbhttp.Engine.Stop", _http_stop_order),
+    _custom("http_shutdown_statement_order", "nbhttp/engine.go", "nbhttp.Engine.Shutdown", _http_shutdown_order),
+    _custom("http_add_nonblocking_order", "nbhttp/engine.go", "nbhttp.Engine.AddConnNonTLSNonBlocking", _addconn_nb),
+    _custom("http_add_tls_nonblocking_order", "nbhttp/engine.go", "nbhttp.Engine.AddConnTLSNonBlocking", _addconn_nb),
+    _custom("http_add_transferred_order", "nbhttp/engine.go", "nbhttp.Engine.AddTransferredConn", _addconn_transferred),
+    _custom("http_add_blocking_order", "nbhttp/engine.go", "nbhttp.Engine.AddConnNonTLSBlocking", _addconn_blk),
+    _custom("http_add_tls_blocking_order", "nbhttp/engine.go", "nbhttp.Engine.AddConnTLSBlocking", _addconn_blk),
+    _custom("http_reader_exit_deletes_then_notifies", "nbhttp/engine.go", "nbhttp.Engine.readConnBlocking", _reader_exit),
+    _custom("http_tls_reader_exit_deletes_then_notifies", "nbhttp/engine.go", "nbhttp.Engine.readTLSConnBlocking", _reader_exit),
+    reader_exit_delete_unconditional,
+    _custom("http_close_job_inside_mustexecute", "nbhttp/engine.go", "nbhttp.NewEngine", _close_job),
+    listen_closes_late_conn,
+    _custom("addconn_closed_test_with_poller_assignment", "poller_epoll.go", "nbio.poller.addConn", _addconn_closed_test),
+    lmux_stop_order,
+    _custom("lmux_start_counts_accept_goroutines", "lmux/lmux.go", "lmux.ListenerMux.Start", _lmux_start),
+    lmux_closequeued_closes_and_decreases,
+]
+
+
 C18_CS = [
     _custom("stop_statement_order", "engine.go", "nbio.Engine.Stop", _stop_order),
     onclose_wrapper_done_after_handler,
@@ -178,7 +398,7 @@ C18_CS = [
     cs.CLOSE[0],                  # closeWithError: test-and-set (model: `flip`), teardown after the unlock
     cs_conc.cs_conn_close_flip,
     cs_conc.cs_timer_async,       # the Async queue is ExecQ's async instance
-]
+] + C18_HTTP_CS
 
 
 # ------------------------------------------------------------------------------------------------ C14
